@@ -113,7 +113,7 @@ def corpus():
 def run(chk):
     common.quiet_trackpy()
     chk.coq()
-    n = 150 if chk.tier == 'quick' else 1500
+    n = 150 if chk.tier == 'quick' else 5000
     cases = corpus()
     for k in range(n):
         cases.append(gen(chk.rng, chk.tier))
